@@ -242,7 +242,7 @@ CONTENT_FAULTS_EXTRA = {}
 for _k, _t in PANIC_INPUTS.items():
     CONTENT_FAULTS_EXTRA[_k + "+rest"] = (lambda t: lambda o: (t + "\n" + o).encode())(_t)
 
-MODULE_FAULTS = ["missing-file", "dangling-symlink", "directory-in-place", "both-file-and-dir-mod", "path-attr-missing-file"]
+MODULE_FAULTS = ["missing-file", "dangling-symlink", "directory-in-place", "both-file-and-dir-mod", "both-file-and-dir-mod+same-name-beside-parent", "path-attr-missing-file"]
 ROOT_PATH_FAULTS = ["missing-file", "dangling-symlink", "directory-in-place"]
 
 CONFIG_FAULTS = {
@@ -293,7 +293,10 @@ def single_faults(shape, thorough):
                 out.append({"kind": k, "at": rel})
         elif not shape.mods[rel].content_only:
             for k in MODULE_FAULTS:
-                if k == "both-file-and-dir-mod" and shape.mods[rel].alt is None:
+                if k.startswith("both-file-and-dir-mod") and shape.mods[rel].alt is None:
+                    continue
+                # the decoy variant needs a declaring file that is itself a non-root, non-mod.rs module file
+                if k.endswith("+same-name-beside-parent") and (shape.mods[rel].parent == shape.root or "/" not in rel):
                     continue
                 out.append({"kind": k, "at": rel})
     cfg = dict(CONFIG_FAULTS)
@@ -358,10 +361,17 @@ def build_faulty_tree(shape, faults):
             entries[rel] = ["dir"]
             entries[rel + "/inner.rs"] = ["file", body("inner").encode()]
             needles += [os.path.basename(rel)]
-        elif k == "both-file-and-dir-mod":
+        elif k.startswith("both-file-and-dir-mod"):
             m = shape.mods[rel]
             entries[m.alt] = ["file", body(m.name + "_alt").encode()]
             needles += [os.path.basename(rel), m.name]
+            if k.endswith("+same-name-beside-parent"):
+                # an undeclared file of the same name next to the declaring file: the ambiguity must not be
+                # "resolved" by falling back to it
+                beside = os.path.join(os.path.dirname(m.parent), m.name + ".rs")
+                if beside in entries:
+                    return None
+                entries[beside] = ["file", body(m.name + "_beside").encode()]
     # 4. configuration faults
     for f in faults:
         k = f["kind"]
